@@ -374,7 +374,7 @@ def main(ck):
                               "Go harness cmd/c13 (generator, reference map, canonicaliser), python driver props/C13/run.py (signatures)",
                               "the HTTP/JSON surface of ts-server"]
     ck.coq_audit(["C13", "C10"])
-    ok = ck.coq_build(["C13/Proofs.vo", "C13/TreeProofs.vo", "C13/Wiring.vo", "C13/Purge.vo", "C13/Corr.vo", "C13/TreeCorr.vo", "C13/Props.vo", "C13/Refuted.vo"])
+    ok = ck.coq_build(["C13/Proofs.vo", "C13/TreeProofs.vo", "C13/Wiring.vo", "C13/Purge.vo", "C13/Corr.vo", "C13/TreeCorr.vo", "C13/PurgeCorr.vo", "C13/Props.vo", "C13/Refuted.vo"])
     if ok:
         ck.coq_props(["C13/Props.v", "C13/Refuted.v"])
     binp = ck.go_build("./cmd/c13", "c13")
@@ -420,6 +420,61 @@ def main(ck):
                 else:
                     ck.violation({"kind": "direct-oracle", "what": "after the purge of dropped series, surviving series lost index items",
                                   "purge": purge, "rerun": "VERIF_SEED=%d harness/cmd/c13purge %d" % (ck.seed, purge["series"])})
+    # ---- item-level correspondence of the purge model with the real mergeset table (C13/Purge.v, C13/PurgeCorr.v)
+    itemsb = ck.go_build("./cmd/c13items", "c13items")
+    if itemsb and ok and not getattr(ck, "replay", None):
+        rci, outi = ck.run([itemsb, "1500" if ck.tier == "quick" else "4000"], timeout=600)
+        dump = None
+        for l in outi.splitlines():
+            if l.startswith('{') and '"purge_items"' in l:
+                dump = json.loads(l)
+        if rci != 0 or dump is None:
+            ck.broken.append("harness c13items failed rc=%d: %s" % (rci, outi[-400:]))
+        else:
+            def pl(xs):
+                return "[" + "; ".join(xs) + "]"
+            parts = pl([pl(["((%d, %d), %s)" % (x["h"], x["b"], pl([str(i) for i in x["ids"]])) for x in pt]) for pt in dump["parts"]])
+
+            def pcase(after):
+                return ("From Coq Require Import NArith List Bool. From OG Require Import C13.Purge C13.PurgeCorr.\n"
+                        "Import ListNotations. Open Scope N_scope.\nDefinition c := mkPC %d %s %s %s.\n"
+                        "Definition M := Eval vm_compute in purge_verdict c.\nPrint M.\n"
+                        % (dump["cap"], pl([str(i) for i in dump["deleted"]]), parts, pl(["(%d, %d)" % (a, b) for a, b in after])))
+            # canary: the table after the purge with one pair removed must agree with no variant
+            resi = ck.coq_eval_many([("purge_items", pcase(dump["after"])), ("purge_items_canary", pcase(dump["after"][1:]))], timeout=600)
+            verd = []
+            for rcx, ox in resi:
+                m = re.search(r"\(\s*(true|false)\s*,\s*(true|false)\s*,\s*(true|false)\s*,\s*(true|false)\s*,\s*\(\s*(\d+)\D+(\d+)\D+(\d+)", ox) if rcx == 0 else None
+                verd.append(None if not m else ([g == "true" for g in m.groups()[:4]], [int(g) for g in m.groups()[4:]]))
+            if verd[0] is None or verd[1] is None:
+                ck.broken.append("purge model evaluation failed: %s" % (resi[0][1] if verd[0] is None else resi[1][1])[-400:])
+            else:
+                (cur, readd, rows, both), sizes = verd[0]
+                ck.cov["purge_items"] = {"series": dump["series"], "dropped_series": dump["dropped_series"], "items_before": dump["items_before"],
+                                         "bytes_before": dump["bytes_before"], "blocks_before_at_least": dump["bytes_before"] // dump["cap"],
+                                         "rows_with_several_ids": dump["rows_with_several_ids"], "pairs_after": sizes[0],
+                                         "pairs_model_current": sizes[1], "pairs_model_repaired": sizes[2],
+                                         "variant_reproducing_the_table": ("current" if cur else "repaired" if both else "re-add only" if readd
+                                                                           else "rows only" if rows else "none")}
+                if any(verd[1][0]):
+                    ck.broken.append("C13 purge evaluator canary: a table with one (head, id) pair removed still agrees with a model variant")
+                if dump["bytes_before"] < 2 * dump["cap"] or dump["rows_with_several_ids"] == 0:
+                    ck.broken.append("C13 purge items: the generated index does not span several blocks / has no merged rows (%s)" % ck.cov["purge_items"])
+                which = ck.cov["purge_items"]["variant_reproducing_the_table"]
+                if both:
+                    pass                      # the repaired model = the specification (C13_purge_keeps_exactly_the_live_items)
+                elif sizes[0] != sizes[2] or which != "none":
+                    # the table after the purge is not the live content (purge_spec, computed by the model that is proved equal to it)
+                    if cur and fragment_finding(ck, F_PURGE):
+                        ck.known_finding(F_PURGE, "the physical purge of dropped series also removes index items of series that were not dropped")
+                    else:
+                        ck.violation({"kind": "direct-oracle", "what": "after the purge of dropped series the index table holds %d (head, id) pairs, its "
+                                      "live content is %d pairs (item-level dump of the real table; model variant that reproduces it: %s)"
+                                      % (sizes[0], sizes[2], which), "purge_items": ck.cov["purge_items"],
+                                      "rerun": "VERIF_SEED=%d harness/cmd/c13items %d" % (ck.seed, dump["series"])})
+                else:
+                    ck.broken.append("correspondence C13 purge model / mergeset table: same number of pairs as the live content but a different "
+                                     "set, and no variant of the model reproduces it (%s)" % ck.cov["purge_items"])
     files = sorted(glob.glob(os.path.join(ck.verif, "corpus", "C13", "*.case")))
     n = 22 if ck.tier == "quick" else 160
     if getattr(ck, "replay", None):
@@ -596,7 +651,7 @@ def main(ck):
                         fid = F_CACHE
                     elif o["shape"] == "show-tag-keys":
                         fid = F_KEYS
-                if fid is None and o["shape"] == "show-tag-keys" and after and corr_ok and not o.get("err") \
+                if fid is None and o["shape"] == "show-tag-keys" and after and not o.get("err") \
                         and (d["kind"] == "series" or h.get("drop2")) and set(o["want"]) <= set(o["rows"]) \
                         and set(o["rows"]) - set(o["want"]) <= {k for sk in h["series"] if sk["mst"] == o["mst"] for k in sk["tags"]}:
                     fid = F_KEYS       # schema-based: keys that only dropped series (of either drop) carried
